@@ -187,7 +187,7 @@ static int jerasure_rs_cauchy_reconstruct(void *desc, char **data, char **parity
          * fine for most cases.  We can adjust the decoding matrix like we
          * did with ISA-L.
          */
-        jerasure_desc->jerasure_bitmatrix_decode(k, m, w,
+        ret = jerasure_desc->jerasure_bitmatrix_decode(k, m, w,
                                              jerasure_desc->bitmatrix,
                                              0,
                                              missing_idxs,
